@@ -306,6 +306,35 @@ def _mul_terms(xt, xr, yt, yr):
     return xt * yt
 
 
+REFINE = [True]
+_REFINE_CACHE = {}
+
+
+def _refine(x):
+    """Range refinement by the solver before a symbolic*symbolic product: a factor whose interval is small but not
+    tiny (e.g. a carry known to interval analysis only as [-2,2]) is asked to be a bit / in {-1,0,1} under the path
+    condition; if so the product becomes an ite (linear)."""
+    if not REFINE[0] or x.lo is None or x.hi is None or z3.is_int_value(x.t):
+        return
+    w = x.hi - x.lo
+    if w <= SMALL_SPLIT or w > 64:
+        return
+    ctx = Ctx.cur
+    key = (id(ctx), len(ctx.pc), x.t.get_id())
+    if key in _REFINE_CACHE:
+        r = _REFINE_CACHE[key]
+    else:
+        r = None
+        for (lo, hi) in ((0, 1), (-1, 1), (0, 2)):
+            if lo >= x.lo - 0 and hi <= x.hi + 0 or True:
+                if ctx.check(z3.Or(x.t < lo, x.t > hi)) == 'unsat':
+                    r = (lo, hi)
+                    break
+        _REFINE_CACHE[key] = r
+    if r is not None:
+        x.lo, x.hi = max(x.lo, r[0]), min(x.hi, r[1])
+
+
 class U:
     """Unreduced integer term with interval."""
     __slots__ = ('t', 'lo', 'hi')
@@ -394,13 +423,19 @@ class SymInt:
             return _mul_invconst(s, o)
         if isinstance(o, SymInt) and (o.frac is not None or s.frac is not None):
             return _mul_frac(s, o)
-        lo, hi = _iv_mul((s.lo, s.hi), _rng(o))
         p = _cong2(s, o)
         cong = None
         if p:
             a, b = _u_of(s, p), _u_of(o, p)
+            if isinstance(o, SymInt):
+                _refine(a)
+                _refine(b)
             cong = (U(_mul_terms(a.t, (a.lo, a.hi), b.t, (b.lo, b.hi)),
                       *_iv_mul((a.lo, a.hi), (b.lo, b.hi))), p)
+        if isinstance(o, SymInt) and not p:
+            _refine(s)
+            _refine(o)
+        lo, hi = _iv_mul((s.lo, s.hi), _rng(o))
         return SymInt(_mul_terms(s.t, (s.lo, s.hi), _t(o), _rng(o)), lo, hi, cong)
     __rmul__ = __mul__
 
@@ -698,6 +733,17 @@ def _bitop(s, o, op):
     return SymInt(out, 0, hi)
 
 
+class no_fork:
+    """harness-side arithmetic (oracles) must not fork on residues."""
+
+    def __enter__(self):
+        self.saved = FORK_MOD_MAX[0]
+        FORK_MOD_MAX[0] = 0
+
+    def __exit__(self, *a):
+        FORK_MOD_MAX[0] = self.saved
+
+
 class InvConst(builtins.int):
     """Concrete modular inverse of d modulo p, remembering d and p."""
     def __new__(cls, v, d, p):
@@ -786,7 +832,7 @@ class _IntMeta(type):
         return builtins.isinstance(x, (builtins.int, SymInt))
 
     def __subclasscheck__(cls, c):
-        return builtins.issubclass(c, (builtins.int, SymInt))
+        return c is cls or builtins.issubclass(c, (builtins.int, SymInt))
 
     def __call__(cls, x=0, *a):
         if builtins.isinstance(x, SymInt):
